@@ -14,7 +14,7 @@ RULE = ("Real TransitSender.connect() and TransitReceiver.connect() on the simul
         "side, 0-2 unreachable hints each way, the real transit relay on/off, 0-3 rogues that dial a listener or "
         "sit behind a hint (silent; random bytes; correct handshake prefix then garbage or nothing; handshake "
         "made with another key; the correct peer handshake without 'go'; 'nevermind'; relay token + junk), an "
-        "optional 'no honest path' mode (every honest attempt refused), optionally connect() called late on one "
+        "optional 'no honest path' mode (every honest attempt refused, or - through a fake Tor manager - stalled forever), optionally connect() called late on one "
         "side so that the peer finishes a handshake first; every connection attempt and every byte of every "
         "handshake is scheduled by the tape. After both connect() calls resolve, a late prober holding the key "
         "dials any listener that is still open. Oracle at quiescence: honest path => both connect() fire with "
@@ -43,6 +43,13 @@ def cases(draw, tier="quick"):
     c["rogues"] = draw(st.lists(st.tuples(st.sampled_from(ROGUE_KINDS), st.sampled_from(["dial-s", "dial-r", "hint-s", "hint-r"]),
                                           st.integers(0, 90)).map(list), max_size=3))
     c["nopath"] = draw(st.integers(0, 6)) == 0
+    # "tor": both sides reach the network only through a (fake) Tor manager: no listeners, every attempt goes
+    # through tor.stream_via(); "stall" = those streams never resolve on their own (an unreachable peer over Tor)
+    c["tor"] = draw(st.sampled_from([None, None, None, "pass", "stall"]))
+    if c["tor"] == "stall":
+        c["nopath"] = True
+    if c["tor"] == "pass":
+        c["relay"] = True
     c["late"] = draw(st.sampled_from([None, None, "s", "r"]))
     # "tape": connect() is called at a tape-chosen moment; "after": only once everything the early
     # side can do on its own has happened (the peer may have completed a handshake by then)
@@ -58,6 +65,34 @@ def strategy(tier):
 
 def unwrap(p):
     return getattr(p, "_wrappedProtocol", p)
+
+
+from zope.interface import implementer
+from wormhole._interfaces import ITorManager
+from twisted.internet.endpoints import TCP4ClientEndpoint
+
+
+class _StallEndpoint:
+    """a Tor stream that never completes (and never fails) unless cancelled"""
+    def __init__(self, log):
+        self.log = log
+
+    def connect(self, factory):
+        d = defer.Deferred(lambda d_: self.log.append("cancelled"))
+        self.log.append("started")
+        return d
+
+
+@implementer(ITorManager)
+class FakeTor:
+    def __init__(self, reactor, stall):
+        self.reactor, self.stall = reactor, stall
+        self.log = []
+
+    def stream_via(self, host, port, tls=False):
+        if self.stall:
+            return _StallEndpoint(self.log)
+        return TCP4ClientEndpoint(self.reactor, "10.9.9.9" if not host[0].isdigit() else host, port)
 
 
 class Rogue(protocol.Protocol):
@@ -121,8 +156,11 @@ def run_case(c):
         ns = NodeReactor(W, "S", "10.0.0.1")
         nr = NodeReactor(W, "R", "10.0.0.2")
         nx = NodeReactor(W, "X", "10.0.0.3")
-        s = TransitSender(relay_url, no_listen=c["nl_s"], reactor=ns)
-        r = TransitReceiver(relay_url, no_listen=c["nl_r"], reactor=nr)
+        tor_s = tor_r = None
+        if c.get("tor"):
+            tor_s, tor_r = FakeTor(ns, c["tor"] == "stall"), FakeTor(nr, c["tor"] == "stall")
+        s = TransitSender(relay_url, no_listen=c["nl_s"], tor=tor_s, reactor=ns)
+        r = TransitReceiver(relay_url, no_listen=c["nl_r"], tor=tor_r, reactor=nr)
         hs, hr = [], []
         s.get_connection_hints().addCallback(hs.extend)
         r.get_connection_hints().addCallback(hr.extend)
@@ -351,7 +389,7 @@ def run_case(c):
                 break
         res.nontrivial = established[0] >= 2 or bool(c["rogues"]) or nopath
         res.features = dict(nl="%d%d" % (c["nl_s"], c["nl_r"]), relay=c["relay"], rogues=len(c["rogues"]), nopath=nopath,
-                            late=c["late"] or "-", est=common.bucket(established[0], [0, 1, 2, 4]),
+                            late=c["late"] or "-", tor=c.get("tor") or "-", est=common.bucket(established[0], [0, 1, 2, 4]),
                             probes=len(probes), ok=ok(S) and ok(R))
         res.trace = ",".join(W.trace[:300])
         res.steps = W.steps
